@@ -83,7 +83,7 @@ Terminates == <>(phase = "done")
 (* The case table for the harness: which structural fields of which container, for which entry points. Field names are
    resolved to byte positions by the harness's own format walkers. *)
 Fields == [
-  zip |-> {"eocd.entries", "eocd.cdSize", "eocd.cdOffset", "eocd.commentLen", "cd.nameLen", "cd.extraLen", "cd.commentLen", "cd.compSize", "cd.usize", "cd.lfhOffset", "lfh.nameLen", "lfh.extraLen", "lfh.compSize"},
+  zip |-> {"eocd.entries", "eocd.cdSize", "eocd.cdOffset", "eocd.commentLen", "cd.nameLen", "cd.extraLen", "cd.commentLen", "cd.compSize", "cd.usize", "cd.lfhOffset", "cd.z64ExtraSize", "lfh.nameLen", "lfh.extraLen", "lfh.compSize"},
   pe |-> {"dos.lfanew", "coff.nsections", "coff.optSize", "opt.sizeOfHeaders", "opt.nDataDirs", "dd.certOffset", "dd.certSize", "sec.rawPtr", "sec.rawSize", "cert.length"},
   cfb |-> {"hdr.sectorShift", "hdr.nFat", "hdr.dirStart", "hdr.miniFatStart", "hdr.nMiniFat", "hdr.difStart", "hdr.nDif", "hdr.difat0", "dir.rootStart", "dir.rootSize", "dir.child", "dir.left", "fat.first"},
   cab |-> {"hdr.cbCabinet", "hdr.coffFiles", "hdr.cFolders", "hdr.cFiles", "hdr.cbCFHeader", "sig.offset", "sig.size"},
